@@ -8,8 +8,9 @@ cutplace.Writer / cutplace.rows under an all-Text CID.  The csv engine is execut
 """
 import io
 import itertools
+import os
 
-from mc import engine, harness
+from mc import engine, harness, readermachine
 from mc.core import Part
 
 MOD = "mc.props.c12"
@@ -93,6 +94,16 @@ def judge(case, part):
             writer.write_rows(table)
             written = target.getvalue()
             back = list(m["rowio"].delimited_rows(io.StringIO(written, newline=""), data_format))
+        elif case["path"] == "file":
+            # through a file the reader opens itself (path source): rowio and API
+            path = os.path.join(readermachine.tmpdir(), "c12_%d.csv" % os.getpid())
+            with open(path, "w", newline="", encoding=data_format.encoding) as target:
+                m["rowio"].DelimitedRowWriter(target, data_format).write_rows(table)
+            with open(path, "r", newline="", encoding=data_format.encoding) as stored:
+                written = stored.read()
+            back = list(m["rowio"].delimited_rows(path, data_format))
+            if back == table:
+                back = list(cutplace.rows(harness.make_cid(cid_rows(config, columns)), path))
         else:
             target = io.StringIO(newline="")
             writer = cutplace.Writer(cid, target)
@@ -154,6 +165,11 @@ def work(item):
         api_tables = [t for t in tables if len(t) == 1 and len(t[0]) <= 2][: (80 if tier == "quick" else 10**6)]
         for table in api_tables:
             judge({"config": list(config), "table": table, "path": "api"}, part)
+        file_tables = api_tables
+        if tier == "quick":  # the tables with line breaks inside cells (what a reader opening the file itself may translate) and a few others
+            file_tables = [t for t in api_tables if any("\r" in c or "\n" in c for c in t[0])][:8] + api_tables[:3]
+        for table in file_tables:
+            judge({"config": list(config), "table": table, "path": "file"}, part)
     part.sample({"config": list(configs[0]), "alphabet": alphabet(configs[0]), "tables": len(tables_for(configs[0], tier)), "example table": tables_for(configs[0], tier)[200]}, limit=1)
     return part
 
